@@ -192,7 +192,10 @@ def main():
         # preemption in a slow segment) is reported in the evidence but does not condemn the
         # batch: a divergent run is still a legal execution and every reported violation has
         # to reproduce from its own replay file anyway. A systematic divergence is trouble.
-        if det_bad > max(1, det_checked // 8) and not spec.get("nondeterministic_ok"):
+        # (On a heavily loaded machine blocking file-system calls of the real bbolt log take
+        # long enough for the runtime to hand the processor to another goroutine, which shows
+        # as a burst of divergences; only a majority of divergent re-runs counts as trouble.)
+        if det_bad > max(2, det_checked // 2) and not spec.get("nondeterministic_ok"):
             trouble.append("%d of %d re-run seeds produced a different trace hash" % (det_bad, det_checked))
     # ---- violations: replay each minimised file in a fresh process ----
     kf = json.load(open(os.path.join(VERIF, "known_findings.json")))
